@@ -27,7 +27,14 @@ RULE = ("Kruskal tensors with 1-4 modes (1-way included), mode sizes 1-4, ranks 
         "'all'), sort on/off, both norm types, mode=; every component permutation for R<=4 (thorough; sampled in quick) and "
         "subsets; fixsigns(other) against references realising every sign pattern of the per-mode correlations (2^N); "
         "non-trivial = rank>=2 or more than one cell, not all weights zero; distinct = distinct (op,args)")
-CORRESPONDENCE_ONLY = ["score (final arrange checked against arrange_perm of the normalised receiver with the returned permutation)"]
+CORRESPONDENCE_ONLY = ["permute (mode permutation: result compared with the model and den(result)(i) = den(K)(i o order^-1) evaluated per case)",
+                       "update (compared with the model; all modes = from_vector evaluated per case)",
+                       "from_vector(tovec(K, include_weights=False)) (unit weights; compared with the model)",
+                       "tolist() / tolist(mode) (compared with the model; unit-weight tensor of the returned factors denotes K, evaluated per case)",
+                       "normal form: unit columns, descending order, all-one weights after absorption (evaluated on pyttb's result per case; only 'no negative weight' is a theorem)",
+                       "score (final arrange checked against arrange_perm of the normalised receiver with the returned permutation)"]
+NOTES = ["A-22 (fixsigns(other) normalises `other` in place) belongs to C05; A-45 (arrange(permutation) accepts non-permutations) to C19: "
+         "theorem C08_invariant_arrange_perm requires is_perm, the generator only sends permutations"]
 ASSUMPTIONS = ["normal-form theorems assume the norm oracle is a norm (positive homogeneous, definite) — numpy's np.linalg.norm itself is not verified",
                "floating-point rounding is not modelled: pyttb's results are compared with the exact rational model within 1e-9 relative"]
 EXPLANATION = ("Invariance theorems hold for every norm oracle that is positive on non-zero columns; the correspondence stream ties "
